@@ -63,6 +63,8 @@ structure LInstSt where
 
 structure LMon where
   insts : Array LInstSt
+  suspect : List (Nat × Nat) := []         -- (instant, instance): a request seen at full count; excused by a release reported at the same instant
+  suspectP : List (Nat × Nat × Nat) := []  -- (instant, instance, partition): a request for a partition still seen as counted; excused likewise
   store : List (Nat × Nat × Nat) := []     -- partition ↦ (owner, until)
   viols : List (String × String) := []
 
@@ -87,6 +89,12 @@ def monitorLease (sc : LScn) (entries : List String) : List (String × String) :
     let n3 := ((f.getD 3 "").toNat?).getD 0
     let cfg (i : Nat) : LInstCfg := sc.insts[i]?.getD ⟨0, 0, 0, 0, false, [], [], []⟩
     let ist (i : Nat) : LInstSt := m.insts[i]?.getD {}
+    if m.suspect.any (fun x => x.1 < t) then
+      m := m.add "C07" "lease-request-without-demand"
+      m := { m with suspect := m.suspect.filter (fun x => x.1 ≥ t) }
+    if m.suspectP.any (fun x => x.1 < t) then
+      m := m.add "C07" "lease-request-for-a-partition-it-counts"
+      m := { m with suspectP := m.suspectP.filter (fun x => x.1 ≥ t) }
     if kind == "actpanic" || kind == "panic" then
       m := m.add "C17" "panic-in-api-call" |>.add "C20" "panic-in-api-call"
     else if kind == "act" then
@@ -132,8 +140,10 @@ def monitorLease (sc : LScn) (entries : List String) : List (String × String) :
       let p := n3
       let s := ist i
       if s.shutdownAt.isSome then m := m.add "C17" "lease-request-after-shutdown"
-      if !(s.held.length < s.target) then m := m.add "C07" "lease-request-without-demand"
-      if s.held.contains p then m := m.add "C07" "lease-request-for-a-partition-it-counts"
+      -- (the expiry goroutine clears the partition before it reports the release: a request issued in between is
+      -- judged once the instant is over)
+      if !(s.held.length < s.target) then m := { m with suspect := (t, i) :: m.suspect }
+      if s.held.contains p then m := { m with suspectP := (t, i, p) :: m.suspectP }
       if p ≥ s.parts then m := m.add "C07" "lease-request-for-a-partition-that-does-not-exist" |>.add "C17" "lease-request-out-of-range"
       m := m.upd i fun s => { s with callOpen := some (t, p) }
     else if kind == "proc" then
@@ -161,6 +171,8 @@ def monitorLease (sc : LScn) (entries : List String) : List (String × String) :
           let h := if s.held.contains v then s.held else s.held ++ [v]
           ({ s with held := h, satisfied := s.satisfied || decide (h.length ≥ min s.target s.parts) } : LInstSt).reneedy t
       else if name == "released" then
+        m := { m with suspect := m.suspect.filter (fun x => !(x.1 == t && x.2 == i)),
+                      suspectP := m.suspectP.filter (fun x => !(x.1 == t && x.2.1 == i && x.2.2 == v)) }
         -- never renewed: given up at most one lease duration after the grant was reported
         match (ist i).retAt.lookup v with
         | some r => if t > r + sc.lease then m := m.add "C07" "grant-kept-longer-than-one-lease-duration"
